@@ -147,10 +147,21 @@ func c20Release(c *Ctx) {
 			c.R.Floor(rule+"/worker-exits", conts, 6)
 			// reloadActive.Store(true) is the first thing the body does
 			first := ""
-			if len(rng.Body.List) > 0 {
-				first = core.ExprStr2(rng.Body.List[0])
+			atHead := false
+			for _, st := range rng.Body.List {
+				first = core.ExprStr2(st)
+				if strings.HasSuffix(first, ".reloadActive.Store(true)") {
+					atHead = true
+					break
+				}
+				// only straight-line statements (logging, counters) may precede it: nothing that can leave the iteration
+				switch st.(type) {
+				case *ast.ExprStmt, *ast.AssignStmt, *ast.DeclStmt, *ast.IncDecStmt:
+					continue
+				}
+				break
 			}
-			c.R.Checkf(rule, "active-set-at-head@worker", c.pos(rng.Body.Pos()), strings.HasSuffix(first, ".reloadActive.Store(true)"), "the worker marks the reload active before anything else: %s", first)
+			c.R.Checkf(rule, "active-set-at-head@worker", c.pos(rng.Body.Pos()), atHead, "the worker marks the reload active before anything that can leave the iteration: %s", first)
 		}
 	}
 	// --- main loop: true edge of reloadManager.reloading.Load()
@@ -259,6 +270,7 @@ func c20Suppress(c *Ctx) {
 	}
 	// refusal edge is effect free
 	var effects []string
+	affecting := c20AdmissionAffecting(c)
 	w := &core.Walker{G: g, Visit: func(n ast.Node) core.Verdict {
 		if isSend(n) {
 			effects = append(effects, "send@"+c.pos(n.Pos()))
@@ -266,16 +278,15 @@ func c20Suppress(c *Ctx) {
 		ownCalls(n, func(call *ast.CallExpr, _ bool) {
 			cal := core.CalleeObj(info, call)
 			if cal == nil {
-				effects = append(effects, core.ExprStr(call.Fun)+"@"+c.pos(call.Pos()))
+				if !c20HarmlessCall(c, info, call, affecting) {
+					effects = append(effects, core.ExprStr(call.Fun)+"@"+c.pos(call.Pos()))
+				}
 				return
 			}
-			nm := cal.Name()
-			switch {
-			case nm == "Warnln" || nm == "Warnf" || nm == "Infoln" || nm == "restoreRejectedReloadProgress":
-			case nm == "Load" || nm == "clearRejectedReloadProgress":
-				// reading a flag, and erasing the refused request's own busy report (C20/REFUSAL re-check), change nothing else
-			default:
-				effects = append(effects, nm+"@"+c.pos(call.Pos()))
+			// logging, reads of the flags, the busy report and its erase change nothing of the admission state;
+			// a call is an effect when it can (transitively) write a flag, send a request or touch the suppression
+			if !c20HarmlessCall(c, info, call, affecting) {
+				effects = append(effects, cal.Name()+"@"+c.pos(call.Pos()))
 			}
 		})
 		return core.Go
@@ -286,12 +297,11 @@ func c20Suppress(c *Ctx) {
 	if rf := c.fn("REFUSAL", "cmd", "restoreRejectedReloadProgress"); rf != nil {
 		var eff []string
 		core.EachCall(rf.Body, core.Deep, func(call *ast.CallExpr) {
-			if cal := core.Callee(rf.Info(), call); cal != nil && cal.Name() != "Load" {
-				eff = append(eff, cal.Name())
-			} else if cal == nil {
-				if id, ok := call.Fun.(*ast.Ident); ok && id.Name != "setRunSignalProgress" {
-					eff = append(eff, id.Name)
-				}
+			if id, ok := call.Fun.(*ast.Ident); ok && id.Name == "setRunSignalProgress" {
+				return // the busy report itself (a package-level function variable)
+			}
+			if !c20HarmlessCall(c, rf.Info(), call, affecting) {
+				eff = append(eff, core.ExprStr(call.Fun))
 			}
 		})
 		c.R.Checkf("REFUSAL", "busy-report-only", c.pos(rf.Pos()), len(eff) == 0, "restoreRejectedReloadProgress only reads reloadActive and writes the busy report; other calls: %v", eff)
@@ -512,8 +522,15 @@ func c20Retire(c *Ctx) {
 			return true
 		}
 		p := lit.Type.Params.List[0].Names[0].Name
-		if ds, ok := lit.Body.List[0].(*ast.DeferStmt); ok && core.ExprStr(ds.Call) == "close("+p+")" {
-			okDefer = true
+		for _, st := range lit.Body.List {
+			if ds, ok := st.(*ast.DeferStmt); ok && core.ExprStr(ds.Call) == "close("+p+")" {
+				okDefer = true
+				break
+			}
+			// only straight-line statements (logging, counters) may precede the defer: nothing that can return first
+			if _, plain := st.(*ast.ExprStmt); !plain {
+				break
+			}
 		}
 		if len(gs.Call.Args) == 1 && core.ExprStr(gs.Call.Args[0]) == "retirementDone" {
 			okArg = true
